@@ -1,4 +1,6 @@
 //! Shared generators.
 pub mod batch;
+pub mod prog;
+pub mod progen;
 pub mod vals;
 pub mod values;
